@@ -64,8 +64,9 @@ package serviceinfo
 //@   params w kv
 //@   local pr = extract0:call:serviceinfo.ChunkWriter.pipe#1
 //@   local pw = extract1:call:serviceinfo.ChunkWriter.pipe#1
-//@   props C15
-//@   sweep bounds,panic
+//@   props C15 C10(sweep,functional)
+//@   sweep bounds,panic,nilmem
+//@   nilable kv
 //@   callsites chansend 1
 //@   callsites pipe 1
 //@   callsites Close 1
